@@ -22,6 +22,9 @@ VERIF = Path(__file__).resolve().parent.parent
 REPO = Path(os.environ.get("VERIF_REPO", "/repo")).resolve()
 GUARD = "CARQUET_VERIF"
 _key = "repo" if str(REPO) == "/repo" else "alt_" + hashlib.sha1(str(REPO).encode()).hexdigest()[:10]
+COV = os.environ.get("VERIF_COV") == "1"      # development-time coverage audit (tools/covaudit.py): gcov-instrumented build,
+if COV:                                       # own build directory, evidence kept out of evidence/
+    _key += "_cov"
 BUILD = VERIF / "build" / _key
 COQ = VERIF / "coq"
 NCPU = os.cpu_count() or 4
@@ -39,6 +42,9 @@ PER_FILE = {"src/simd/x86/sse_ops.c": ["-msse4.2"],
             "src/simd/x86/avx2_ops.c": ["-mavx2", "-mbmi2"],
             "src/simd/x86/avx512_ops.c": ["-mavx512f", "-mavx512bw", "-mavx512vl"]}
 LINK_LIBS = ["-lzstd", "-lz", "-lm"]
+if COV:
+    SAN_FLAGS = SAN_FLAGS + ["--coverage"]
+    PLAIN_FLAGS = PLAIN_FLAGS + ["--coverage"]
 
 
 def log(*a):
@@ -598,7 +604,7 @@ class Report:
             self.cov["discharged_count"] = self.cov.pop("discharged", 0)
             self.cov["obligations_count"] = self.cov.pop("obligations", 0)
         # evidence/ holds runs against /repo only; development runs on a scratch worktree go to build/
-        evdir = (VERIF / "evidence") if str(REPO) == "/repo" else (BUILD / "evidence")
+        evdir = (VERIF / "evidence") if (str(REPO) == "/repo" and not COV) else (BUILD / "evidence")
         evdir.mkdir(parents=True, exist_ok=True)
         (evdir / f"{self.pid}.json").write_text(json.dumps(ev, indent=1, default=str))
         for k in self.known_hit:
